@@ -138,6 +138,9 @@ structure SpecWF (spec : Spec) : Prop where
   structLen : ∀ so ∈ spec.structs, so.len = ((structStrands spec so).map (fun q => q.2.len)).sum
   equal : ∀ its ∈ spec.equals, ∀ i ∈ its, (spec.findSeq i.name).isSome = true
   seqNames : (spec.seqs.map (·.name)).Nodup
+  strandNames : (spec.strands.map (·.name)).Nodup
+  bondsLt : ∀ so ∈ spec.structs, ∀ b ∈ so.bonds, b.1 < so.len ∧ b.2 < so.len
+  equalLen : ∀ its ∈ spec.equals, its ≠ [] ∧ ∀ i ∈ its, ∀ j ∈ its, lenOf spec i = lenOf spec j
   supEarlier : ∀ (i : Nat) (o : SeqObj), spec.seqs[i]? = some o → o.isSup = true →
     ∀ it ∈ o.items, ∃ j o', j < i ∧ spec.seqs[j]? = some o' ∧ spec.findSeq it.name = some o'
 
